@@ -15,26 +15,26 @@ def prop(pid):
         cls.pid = pid; cls.statement = STATEMENTS[pid]; REG[pid] = cls(); return cls
     return deco
 TESTED_ONLY = {
- 'C01': ['k+1 distinct faces of order k-1, basis of k+1 points, no shared basis, maxOrder = largest populated order: proved only for complexes on <= 4 points (kernel sweep); beyond that by the wf oracle after every step of every history'],
- 'C02': ['effects and frames of delete / restrict / add by basis / subdivide beyond 4 points; bulk add under a renaming; attribute read-back (oracle c02-pre/post)'],
- 'C03': ['entries of the boundary operators against faces(), cofaces as the inverse of faces, basis = closure points, d.d = 0 beyond 4 points (views oracle after every step)'],
+ 'C01': ['survival of the face / basis counts under deletions for unbounded histories (every *added* simplex is proved to have exactly its k+1 distinct faces; that deletions remove cofaces first is not proved), basis of k+1 points, no shared basis, maxOrder = largest populated order: proved only for complexes on <= 4 points (kernel sweep); beyond that by the wf oracle after every step of every history'],
+ 'C02': ['effects and frames of delete / restrict / add by basis / subdivide beyond 4 points (add by faces and bulk add without renaming are proved for every history); bulk add under a renaming; attribute read-back (oracle c02-pre/post)'],
+ 'C03': ['basis = closure points, d.d = 0, boundary() of chains beyond 4 points (views oracle after every step); shapes, entries and cofaces = inverse of faces are proved for every history'],
  'C04': ['closure / star / lookups beyond 4 points; disjoint() beyond 3 points and for 4-tuples; returned names having the Python type they were created with (oracle c04)'],
  'C05': ['continuation after a rejected call behaves as if it had not been made (twin-history oracle); atomicity of addSimplexWithBasis / relabel beyond the cases proved'],
  'C06': ['betti 0 = number of connected components (union-find oracle); invariance under renaming / insertion order / copies (oracle c06-inv); the boundary operators being those of the stored complex is C03'],
- 'C07': ['Z(): every chain a cycle, chains independent, as many as the nullity (oracle c07)'],
- 'C08': ['that the *code* does not write through numpy views or shared dictionaries (before/after oracle on every call); flagComplex / compose / vietorisRips / filtration iteration frames'],
- 'C09': ['contents of the copies; freshness of compose / flagComplex / vietorisRipsComplex / Filtration.copy; follow-up mutation scripts on either side (oracles fresh, same-content, unchanged)'],
- 'C10': ['copy == source, delete makes strictly smaller (oracle c10 on mutated copies)'],
+ 'C07': ['boundary() of a returned chain being [] through the public call (oracle c07); count, cycles (on the matrix) and independence are proved'],
+ 'C08': ['that the *code* does not write through numpy views or shared dictionaries (before/after oracle on every call); heap frames of constructors other than copy'],
+ 'C09': ['attribute values of copies; contents and freshness of compose / flagComplex / vietorisRipsComplex / Filtration.copy; follow-up mutation scripts on either side (oracles fresh, same-content, unchanged)'],
+ 'C10': ['delete makes strictly smaller (oracle c10 on mutated copies); copy == source is proved for sources with the right face counts'],
  'C11': ['flag complexes beyond 4 points; growFlagComplex = rebuild (oracles c11, samefam)'],
- 'C12': ['the family for arbitrary point sets in binary64 (oracle c12 with its own metric); negative radius and diameter cases beyond the examples'],
+ 'C12': ['the family for arbitrary point sets in binary64 (oracle c12 with its own metric; the binary64 model itself is compared bit for bit with the code on every run); negative radius and diameter cases beyond the examples'],
  'C13': ['closedness of every view, deletion of the whole star across indices, indices() covering the births, complexes() (shadow-log oracle c13)'],
  'C14': ['agreement of the index-aware queries with the snapshot (oracle c14 per query); setMinimumIndex / setMaximumIndex'],
  'C15': ['multi-name relabel as a whole, relabelDisjointFrom, Betti invariance, addSimplicesFrom isomorphism (oracle c15-pre/post)'],
  'C16': ['compose beyond 3 points; every incompatibility shape; attribute merging; target complexes (oracle c16)'],
  'C17': ['the JSON text layer (json.dumps / loads, files), name types, nested / unicode attribute values, wrapping in other JSON, filtrations (oracle c17)'],
  'C18': ['arbitrary targets beyond 3 points; requested name / attributes of the top simplex on non-empty targets (oracle c18)'],
- 'C19': ['the Euler integral: level-set and simplex-wise formulas, default value, additivity, input unchanged (oracle c19)'],
- 'C20': ['positionsOf / len / in against the complex; Euclidean distance on arbitrary doubles (oracles c20, c20-dist)'],
+ 'C19': ['the Euler integral: level-set and simplex-wise formulas, default value, additivity, input unchanged (oracle c19); Euler characteristic = alternating Betti sum is proved for every history'],
+ 'C20': ['positionsOf / len / in against the complex (oracle c20); Euclidean distance and lattice positions on arbitrary doubles: the binary64 model is compared bit for bit with the code on every run, not proved about real numbers'],
 }
 
 def get(pid):
